@@ -25,7 +25,7 @@ func main() {
 		honestWrap(r)
 	}
 	space.Summarize(r, results)
-	r.Assume("small scope: Ring capacities 1..4 at start, grown up to 16; SyncRing capacities 2,4,8 with counters teleported to every position within 2*cap of 0 and 2^32 and to 2^31+-1",
+	r.Assume("small scope: Ring capacities 1..5 at start, Recap(-1..12), grown up to 24; SyncRing capacities 2,4,8 with counters teleported to every position within 2*cap of 0 and 2^32 and to 2^31+-1",
 		"teleport (reflect+unsafe write of head, tail and slot sequence numbers) is validated against honest stepping for every k <= 4*cap on every run and against an honest run of 2^32+64 push/pop pairs on the thorough tier")
 	r.Finish("states = distinct canonical dumps of the private object graph (head/tail/cap/slot contents, element values renamed by first appearance); every transition is one real method call compared with a bounded-FIFO model, followed by the query battery Len/Cap/IsEmpty/IsFull/Peek and a destructive drain")
 }
@@ -39,14 +39,14 @@ type ringInst struct {
 	next  Val
 }
 
-const ringMaxCap = 16
+const ringMaxCap = 24
 
 func (x *ringInst) Ops() []space.Op {
 	ops := []space.Op{{Name: "Push"}, {Name: "Pop"}, {Name: "Peek"}}
 	if len(x.model) < x.cap || x.cap*2 <= ringMaxCap {
 		ops = append(ops, space.Op{Name: "PushWithExpand"})
 	}
-	for c := -1; c <= 9; c++ {
+	for c := -1; c <= 12; c++ {
 		ops = append(ops, space.Op{Name: "Recap", Args: []int{c}})
 	}
 	for c := 1; c <= 3; c++ {
@@ -150,7 +150,7 @@ func (x *ringInst) Check() *space.Mismatch {
 func ringSearch(r *common.Run) space.Result {
 	sys := space.System{
 		Name:   "Ring",
-		Starts: 4,
+		Starts: 5,
 		New: func(s int) space.Instance {
 			return &ringInst{r: ringz.New[Val](s + 1), cap: s + 1}
 		},
